@@ -126,6 +126,26 @@ def run(ctx):
                     code.name, decname, fec.int_to_bits(m, k), fec.int_to_bits(e, n), fec.wt(e), t, fec.int_to_bits(g, k)),
                     dict(rep, decoder=decname, message=fec.int_to_bits(m, k), error=fec.int_to_bits(e, n), t=t))
                 return
+        # the same words held in other dtypes, decoded twice by the same decoder object (syndromes repeat): same messages
+        idx = list(range(len(words))) if len(words) <= 150 else rng.sample(range(len(words)), 150)
+        for dt in (torch.int32, torch.int64, torch.float64):
+            xs = torch.tensor([fec.int_to_bits(words[i], n) for i in idx]).to(dt)
+            try:
+                o1 = quiet(dec, xs)
+                o2 = quiet(dec, xs.clone())
+            except Exception:
+                ctx.count("dtype-rejected")
+                continue
+            ctx.count("dtype-decodings", 2 * len(idx))
+            for ps, out in (("first", o1), ("second", o2)):
+                gd = [fec.bits_to_int([int(v) for v in r]) for r in out.tolist()]
+                badj = [j for j, i in enumerate(idx) if gd[j] != expect[i][0]]
+                if badj:
+                    j = badj[0]
+                    ctx.violation(base % ("%s-corrects-t-dtype" % decname), "%s decoded by %s: the %s pass over %s words returns %s for message %s with error pattern %s (weight %d <= t=%d)" % (
+                        code.name, decname, ps, str(dt).split(".")[1], fec.int_to_bits(gd[j], k), fec.int_to_bits(expect[idx[j]][0], k), fec.int_to_bits(expect[idx[j]][1], n), fec.wt(expect[idx[j]][1]), t),
+                        dict(rep, decoder=decname, dtype=str(dt)))
+                    return
         ctx.note("%s/%s: %d codewords x %d patterns (t=%d)%s" % (code.name[:60], decname, len(msgs), len(pats), t, " exhaustive" if exhaustive else "")) if len(ctx.notes) < 12 else None
 
     def ml_clause(code, decname, dec, enc, n, k, gs, hs_ref, base, rep):
